@@ -313,15 +313,36 @@ func runC15(c *Ctx) {
 	{
 		// the default: every call Value.Value on ArgumentDefinition.DefaultValue lies under hasValue == false
 		var defaultCall, literalCall ssa.Instruction
-		for _, ci := range callsTo([]*ssa.Function{a2m}, valueFn) {
-			recv := ci.Common().Args[0]
+		allInstrs(a2m, func(in ssa.Instruction) {
+			ci, ok := in.(ssa.CallInstruction)
+			if !ok {
+				return
+			}
+			h := ci.Common().StaticCallee()
+			var recv ssa.Value
+			switch {
+			case h == valueFn:
+				recv = ci.Common().Args[0]
+			case h != nil && p.inModule(h) && len(h.Blocks) > 0:
+				// a wrapper that converts one of its parameters (`mustValue(v, vars)`)
+				for _, c2 := range callsTo([]*ssa.Function{h}, valueFn) {
+					if prm, isP := c2.Common().Args[0].(*ssa.Parameter); isP {
+						if k := paramIndex(h, prm); k >= 0 && k < len(ci.Common().Args) {
+							recv = ci.Common().Args[k]
+						}
+					}
+				}
+			}
+			if recv == nil {
+				return
+			}
 			switch {
 			case loadOfField(recv, "ArgumentDefinition", "DefaultValue"):
 				defaultCall = ci
 			case loadOfField(recv, "Argument", "Value"):
 				literalCall = ci
 			}
-		}
+		})
 		if defaultCall == nil || literalCall == nil {
 			r5.Fail(a2m.Pos(), p.FuncName(a2m), "literal / default conversions not found", "arg2map no longer converts the written argument and the argument definition's default")
 		} else if c15PathForm(p, a2m, literalCall, defaultCall, r5) {
